@@ -11,7 +11,7 @@ EXTENDS Parser
 (* Field / Function print their enum names; the Parser model already uses those names as the field / function values *)
 EnumC(s) == CASE s = "Size" -> <<"S","i","z","e">> [] s = "Name" -> <<"N","a","m","e">> [] s = "Hardlinks" -> <<"H","a","r","d","l","i","n","k","s">>
               [] s = "Uid" -> <<"U","i","d">> [] s = "Length" -> <<"L","e","n","g","t","h">> [] s = "Lower" -> <<"L","o","w","e","r">>
-              [] s = "Upper" -> <<"U","p","p","e","r">> [] s = "Abs" -> <<"A","b","s">> [] OTHER -> <<"?">>
+              [] s = "Upper" -> <<"U","p","p","e","r">> [] s = "Abs" -> <<"A","b","s">> [] s = "LineCount" -> <<"L","i","n","e","C","o","u","n","t">> [] OTHER -> <<"?">>
 ArithC(o) == CASE o = "Add" -> <<"+">> [] o = "Subtract" -> <<"-">> [] o = "Multiply" -> <<"*">> [] o = "Divide" -> <<"/">> [] o = "Modulo" -> <<"%">> [] OTHER -> <<"?">>
 RECURSIVE ExprText(_), ArgsText(_)
 ArgsText(args) == IF args = <<>> THEN <<>> ELSE <<",", " ">> \o ExprText(args[1]) \o ArgsText(Tail(args))
